@@ -209,6 +209,10 @@ pub struct IterCase {
     pub queries: Vec<Query>,
     #[serde(default)]
     pub v1: bool,
+    /// queries are run two at a time, on two clones of the reader, their `next` calls alternating
+    /// (with `EnvPlan.shared_pos` the two clones share one file position, like two handles on a `&File`)
+    #[serde(default)]
+    pub interleave: bool,
 }
 
 #[derive(Clone, Serialize, Deserialize, Debug, PartialEq)]
